@@ -29,6 +29,7 @@ import (
 	"math/rand/v2"
 	"sort"
 	"sync"
+	"sync/atomic"
 
 	"github.com/NethermindEth/juno/blockchain"
 	"github.com/NethermindEth/juno/blockchain/networks"
@@ -173,6 +174,14 @@ type world struct {
 
 	heads     []headRec
 	feedHeads []headRec
+
+	hook        *hookDB
+	endFeed     func()
+	initial     *headRec // the record the case started with (none)
+	headCount   atomic.Int64
+	overtaken   atomic.Int64
+	readersStop atomic.Bool
+	rd          readers
 
 	unclamped bool
 	pace      *rand.Rand // driver goroutine only
